@@ -305,6 +305,10 @@ def peel(t, casts=True, identity=True, unwrap=False):
             continue
         if unwrap and t[0] == 'unwrap':
             t = t[1]
+            # payload of a literal Some(..) / Ok(..)
+            if isinstance(t, tuple) and t and t[0] == 'agg' and t[1] == 'adt' and len(t[3]) == 1 and \
+                    (t[2].endswith('Option::Some') or t[2].endswith('Result::Ok')):
+                t = t[3][0]
             continue
         if unwrap and t[0] == 'call' and last_seg(t[1]) in ('ok', 'unwrap_or_default') and len(t[2]) == 1:
             t = t[2][0]
